@@ -396,7 +396,7 @@ func ruleCommitRule(c *eng.Ctx) {
 			okPred := false
 			if pred != nil {
 				for _, r := range eng.Returns(pred) {
-					okPred = eng.Bin(token.LEQ, eng.LoadNamed("Offset", nil), func(v ssa.Value) bool { return eng.Call(-1, "server.min")(v) })(r.Results[0])
+					okPred = eng.RelVal(eng.LoadNamed("Offset", nil), func(v ssa.Value) bool { return eng.Call(-1, "server.min")(v) }, eng.LE)(r.Results[0])
 				}
 			}
 			c.Check(okPred, "commit predicate", c.Pos(tv), "TakeUntil(pending.Offset <= minLatest)", "the commit queue predicate is not `pending.Offset <= minLatest`")
@@ -409,14 +409,34 @@ func ruleCommitRule(c *eng.Ctx) {
 		}
 	}
 	if fn := c.Fn("server.min"); fn != nil {
-		// keeps the smaller: the store/phi update happens on v[i] < m
+		// keeps the smaller: the running minimum takes the element exactly on the edge where element < minimum
 		okMin := false
 		eng.Instrs(fn, func(in ssa.Instruction) {
-			if iff, ok := in.(*ssa.If); ok {
-				if bo, ok := iff.Cond.(*ssa.BinOp); ok && bo.Op == token.LSS {
-					if _, isLoad := bo.X.(*ssa.UnOp); isLoad {
-						okMin = true
+			ph, ok := in.(*ssa.Phi)
+			if !ok {
+				return
+			}
+			for i, e := range ph.Edges {
+				ia := indexOfLoad(e)
+				if ia == nil || !eng.Param("v")(ia.X) || eng.IntConst(0)(ia.Index) {
+					continue
+				}
+				sameElem := func(v ssa.Value) bool { x := indexOfLoad(v); return x != nil && x.X == ia.X && x.Index == ia.Index }
+				smaller := eng.CmpEdges(fn, sameElem, func(v ssa.Value) bool { _, isPhi := v.(*ssa.Phi); return isPhi }, eng.LT)
+				pred := ph.Block().Preds[i]
+				direct := false
+				for _, se := range smaller {
+					if se.From == pred && se.To() == ph.Block() {
+						direct = true
 					}
+				}
+				if !direct && len(pred.Instrs) > 0 {
+					if g, _ := eng.GuardedBy(fn, pred.Instrs[len(pred.Instrs)-1], smaller); g && len(smaller) > 0 {
+						direct = true
+					}
+				}
+				if direct {
+					okMin = true
 				}
 			}
 		})
